@@ -78,6 +78,7 @@ type Call struct {
 	Group   int    `json:"group"`    // calls of one group start together; groups run one after the other
 	DelayMs int    `json:"delay_ms"` // stagger inside the group
 	Poke    bool   `json:"poke"`     // send a signal addressed to an unknown run while this call is pending
+	PokeOwn bool   `json:"poke_own,omitempty"` // ... addressed to this very run instead, with a signal ID the step does not declare
 }
 
 type Case struct {
@@ -279,7 +280,13 @@ func run(c Case) (string, map[string]int) {
 				var toStep chan schema.Input
 				if cl.Poke && !c.V1 {
 					toStep = make(chan schema.Input, 1)
-					toStep <- schema.Input{RunID: "unknown-run-" + cl.Run, ID: "whatever", InputData: map[string]any{}}
+					target := "unknown-run-" + cl.Run
+					if cl.PokeOwn {
+						// the plugin answers with an error message that carries this run's ID and is fatal to nothing:
+						// the run's result must still be the step's
+						target = cl.Run
+					}
+					toStep <- schema.Input{RunID: target, ID: "whatever", InputData: map[string]any{}}
 				}
 				ret := make(chan atp.ExecutionResult, 1)
 				start := time.Now()
@@ -569,6 +576,10 @@ func TestSessions(t *testing.T) {
 				cl.Group = i / 2
 			}
 			cl.Poke = !c.V1 && rapid.IntRange(0, 3).Draw(rt, "poke") == 0
+			cl.PokeOwn = cl.Poke && rapid.Bool().Draw(rt, "pokeOwn")
+			if cl.PokeOwn {
+				ev.Class("signal_to_own_run_answered_by_nonfatal_error", 1)
+			}
 			c.Calls = append(c.Calls, cl)
 		}
 		c.C2S, c.S2C = genPlan(rt, "c2s"), genPlan(rt, "s2c")
